@@ -166,8 +166,8 @@ func newEnv(u *cdesc.Universe, k int) (*caseEnv, error) {
 			continue
 		}
 		r := e.doCall(newShared("codec"), call{Kind: kEncode, Node: i})
-		if r.failed() {
-			return nil, fmt.Errorf("solo encode of node %d fails: %s", i, r)
+		if r.failed() != !u.Good(i) {
+			return nil, fmt.Errorf("solo encode of node %d (reflectable: %v): %s", i, u.Good(i), r)
 		}
 		e.encoded[i] = r.Out
 	}
@@ -325,7 +325,7 @@ func callsTerm(cs [][]call) string {
 	for i, th := range cs {
 		ns := make([]int, len(th))
 		for k, c := range th {
-			ns[k] = c.Node
+			ns[k] = cdesc.Name(c.Node)
 		}
 		parts[i] = intsN(ns)
 	}
@@ -334,7 +334,7 @@ func callsTerm(cs [][]call) string {
 
 func runC10(cfg *vh.Config) error {
 	res := vh.NewResult("C10", cfg.Seed)
-	res.Rule = "forced schedules on the real SchemaCache / Codec / package-level Global codec through the verifhook points: type universes (chain, shared sub-schema, mutual+self recursion, disjoint, random graphs of 2-7 messages/enums in 1-3 packages, list and map fields; in codec/global mode a third of the universes also have exposed oneofs and oneof wrapper messages — those cases go to the direct oracle only), 2-6 threads of 0-3 calls (Schema / encode / decode / query-decode), schedules uniform / bursts / stall-after-k / all-enter, each drained round-robin; plus the model's two refutation witnesses in every mode; plus real goroutines under the race detector (first use on fresh codecs). non-trivial = distinct (universe, calls, schedule) with at least two threads that make a call"
+	res.Rule = "forced schedules on the real SchemaCache / Codec / package-level Global codec through the verifhook points: type universes (a quarter of them with one or two types that have a field of an unsupported type and so fail to reflect, as do the types that reach them; chain, shared sub-schema, mutual+self recursion, disjoint, random graphs of 2-7 messages/enums in 1-3 packages, list and map fields; in codec/global mode a third of the universes also have exposed oneofs and oneof wrapper messages — those cases go to the direct oracle only), 2-6 threads of 0-3 calls (Schema / encode / decode / query-decode), schedules uniform / bursts / stall-after-k / all-enter, each drained round-robin; plus the model's two refutation witnesses in every mode; plus real goroutines under the race detector (first use on fresh codecs). non-trivial = distinct (universe, calls, schedule) with at least two threads that make a call"
 	cf := &vh.CasesFile{
 		Header: "From Coq Require Import String List NArith.\nFrom J5V.model Require Import Conc ConcCorr.",
 		Type:   "c10case",
@@ -356,7 +356,12 @@ func runC10(cfg *vh.Config) error {
 			mode = "global"
 		}
 		u, why := cdesc.GenUniverse(r, fmt.Sprintf("%sc%d", tagBase, i))
-		if mode != "cache" && r.Chance(35) {
+		if r.Chance(25) {
+			// some types cannot be reflected: their calls fail, alone and under any schedule,
+			// and must leave nothing behind for the others
+			cdesc.WithBad(r, u)
+			why += "+unsupported"
+		} else if mode != "cache" && r.Chance(35) {
 			// exposed oneofs / oneof wrapper messages: outside the Coq model, direct oracle only
 			u, why = cdesc.GenRich(r, fmt.Sprintf("%sc%d", tagBase, i))
 		}
